@@ -1,12 +1,27 @@
 SPEC = {
     "id": "C15",
     "n": {"quick": 1500, "thorough": 60000},
-    "components": {"1": "graphql.Parse verdict / error class", "2": "query name and kind", "3": "aliases after Flatten",
+    "components": {"1": "graphql.Parse verdict / error class", "2": "query name and kind", "3": "Flatten of the top-level selection set (aliases / error / panic)",
                    "5": "visits of detectConflicts.visitSibling", "6": "calls of PrepareQuery", "7": "model rejects a fragment bomb the code accepts"},
     "corr_name": "GqlTyping.Parse (convert, detect_cycles, detect_conflicts, flatten, prepare + visit counts) vs graphql.Parse / Flatten / PrepareQuery on graphql-go's real AST",
     "coq_modules": ["GqlTyping.Check15"],
     "harness_timeout": {"quick": 600, "thorough": 3000},
-    "trusted_base": [],
-    "assumptions": [],
-    "manifest": {"text": "", "note": "", "technique": ""},
+    "trusted_base": [
+        "Coq 8.16.1 kernel and vm_compute (no native_compute); Print Assumptions: closed under the global context",
+        "hand-written model coq/theories/GqlTyping/Parse.v of graphql/parser.go (valueToJson, argsToJson, parseDirectives, parseSelectionSet, detectCyclesAndUnusedFragments, detectConflicts, Parse, Flatten) and of the traversal of executor.go PrepareQuery; GqlTyping/Conn.v (one run of one request on a websocket connection); GqlTyping/OneShot.v (one-shot handler + rerunner start-up) - tied to the code by the correspondence check (Parse/Flatten/visit counts) and, for Conn and OneShot, by the oracle scripts only",
+        "graphql-go's lexer/parser (text -> AST) is third-party: the harness prints its real AST as a term of the mirror type; strconv.ParseFloat range errors and float formatting are attributes of the input",
+        "Go harness harness/cmd/c15 + harness/pkg/gqlty (generators, child-process isolation, fake JSONSocket, httptest, in-process federation, oracle), verifhook counters parse.visit / prepare.visit (patches/C15-hooks.patch)",
+        "wall-clock promptness (2 s cap) and runtime.NumGoroutine returning to baseline are measured, not proved",
+    ],
+    "assumptions": [
+        "the mirror type gdoc is the set of ASTs graphql-go's parser returns: option only for alias, operation name, inline-fragment type condition, field sub-selection, default value (harness reports any other nil as ast-outside-mirror-type)",
+        "argument parsing (field.ParseArguments) is outside the model of PrepareQuery (C18); integer arguments between 2^53 and 2^63 are outside the generator",
+        "Flatten is compared on directive-free queries only (directive semantics at Flatten time belongs to C19)",
+        "user computations terminate (OneShot: ComputeFinish is always enabled while computing); Go scheduler fairness",
+    ],
+    "manifest": {
+        "text": "Coq theorems (Props/C15.v): the repaired conversion of graphql-go's AST never crashes for any AST and variable map and any Go map order (the original does: witness); detectConflicts and PrepareQuery of the original code need >= 2^n visits on a family of 3n+3 nodes (refutation of polynomial cost, by induction); a panicking resolver changes nothing but its own request in the connection model; in the LTS of the one-shot handlers the original has a reachable dead state (cancelled before the first run), the repaired one has no reachable deadlock and a decreasing measure. On every run the model is evaluated on graphql-go's real ASTs of generated documents and compared with graphql.Parse / Flatten / hook visit counts, and the oracle (no panic or process death, visits <= 64*nodes, failing request gets exactly one sanitised error while other subscriptions keep updating, cancelled requests return within 2 s, goroutines back to baseline) runs on six input streams with every case in a child process.",
+        "note": "Trusted: Coq kernel + vm_compute; the hand-written models (Conn/OneShot tied to the code by oracle scripts only); graphql-go's parser and strconv as third-party; the harness. Measured not proved: wall-clock promptness, goroutine counts. Not modelled: argument parsers (C18), directive semantics in Flatten (C19), executor internals (C01/C16). The polynomial upper bound after the repair is checked by the oracle (visits <= 64*nodes) and proved only for detectConflicts if Props/C15.v lists it.",
+        "technique": "Coq proof over executable model (functions + small LTS) + differential correspondence on real ASTs (vm_compute) + property oracle with process isolation, hook visit counters, scripted cancellation",
+    },
 }
